@@ -251,6 +251,7 @@ class Machine:
                     break
                 if r[0] == "break":
                     nxt = r[1]
+                    st["via_break"] = True
                     break
             if skip == "redirect":
                 continue
@@ -266,7 +267,7 @@ class Machine:
             if is_end:
                 return self.result("DONE" if nxt in self.accepting else "FAIL", nxt, st, False)
             if nxt in self.accepting and not self.strict_done and all(x.error_handling for x in nxt.transitions):
-                return self.result("DONE", nxt, st, False, done_now=True)
+                return self.result("DONE", nxt, st, False, done_now="via-break" if st.get("via_break") else True)
             return self.result("OK", nxt, st, True)
 
     def result(self, code, s, st, consumed, done_now=False):
